@@ -6,23 +6,25 @@ ID = "C02"
 MODULE = "DrandProofs.C02"
 THEOREMS = ["Drand.Chain." + t for t in [
     "c02_init_inv", "c02_put_inv", "c02_restart", "c02_chain_inv", "c02_append_only", "c02_reput_head",
-    "c02_gap_refused", "c02_agree", "c02_resync_sound", "tie_appendStore_locked"]]
+    "c02_gap_refused", "c02_agree", "c02_resync_sound", "c02_restart_genesis", "c02_failed_write_no_effect", "tie_appendStore_locked"]]
 TRUSTED = ["Lean 4 kernel; axioms per theorem under coverage.axioms",
            "the base store is the sorted map of C18 (bbolt/memdb refine it: C18's correspondence)",
            "sync.Mutex gives mutual exclusion: appendStore.Put holds its mutex for its whole body (regenerated lock fact), so interleavings of the aggregation and sync paths are sequences of Puts",
            "SigUnique (uniqueness of BLS signatures) is an explicit hypothesis of c02_agree / c02_resync_sound",
            "harness engine 'chain': real newAppendStore(NewSchemeStore(base)) over trimmed bolt (previous-required iff chained), untrimmed bolt, memdb"]
 ASSUMPTIONS = ["every write of a participating node goes through the store stack built by newChainStore; the repair path writes verified beacons only (C10)"]
-BACKENDS = ["trimmed", "bolt", "mem"]
+BACKENDS = ["trimmed", "bolt", "mem", "mem10"]
+SCHEMES = ["pedersen-bls-chained", "pedersen-bls-unchained", "bls-unchained-g1-rfc9380", "bls-unchained-on-g1", "bls-bn254-unchained-on-g1"]
 
 
 def sig_of(rng, r, alt=False):
     return f"{(r * 7 + (1 if alt else 0)) % 256:02x}{r % 256:02x}"
 
 
-def gen_sequence(rng, chained):
+def gen_sequence(rng, chained, ring=False):
     seed = rng.choice(["aa", "5eed", "00"])
-    seq = [f"init {1 if chained else 0} {seed}"]
+    scheme = SCHEMES[0] if chained else rng.choice(SCHEMES[1:])
+    seq = [f"init {scheme} {seed}"]
     head = 0
     sigs = {0: seed}
     for _ in range(rng.range(15, 60)):
@@ -46,7 +48,18 @@ def gen_sequence(rng, chained):
         elif k < 80:    # gaps and the past
             r = rng.choice([head + 2, head + 3, max(0, head - 1), max(0, head - 2), 0, head + 50])
             seq.append(f"put {r} {sig_of(rng, r, rng.chance(1, 2))} {sigs.get(r - 1, '-') if r > 0 else '-'}")
-        elif k < 88:
+        elif k < 84:
+            n = rng.range(2, 12)
+            seq.append(f"race {n} {rng.range(2, 6)}")
+            for i in range(n):
+                head += 1
+                sigs[head] = f"{(head * 7) % 256:02x}{head % 256:02x}5a"
+        elif k < 86:    # a write that fails below the wrappers must not advance the chain head
+            r = head + 1
+            seq.append(f"failput {r} {sig_of(rng, r)} {sigs[head] if chained else '-'}")
+            if ring:      # memdb ignores the context, the write succeeds
+                head, sigs[r] = r, sig_of(rng, r)
+        elif k < 90:
             seq.append("restart")
         elif k < 94:
             seq.append("last")
@@ -68,17 +81,24 @@ def parse_scan(out):
 
 def oracle_seq(seq, outs, window=None):
     """C02 on the implementation's own answers: gap-free 0..head, linked, append-only, no rewrite."""
-    chained = seq[0].split()[1] == "1"
+    chained = seq[0].split()[1] == SCHEMES[0]
     store = None
     for op, out in zip(seq, outs):
         f = op.split()
         if out.startswith("err:") or out.startswith("panic"):
             return f"{op}: unexpected outcome {out}"
+        if f[0] == "race":
+            # concurrent writers: every beacon appended exactly once, nobody failed
+            oks = out.split()[1].split("=")[1].split(",")
+            if out.split()[2] != "bad=0" or any(o != "1" for o in oks):
+                return f"{op}: concurrent writers produced {out} (each round must be appended exactly once)"
         if f[0] == "scan":
             cur = parse_scan(out)
             rounds = [c[0] for c in cur]
             if not cur or rounds != list(range(rounds[0], rounds[0] + len(rounds))):
                 return f"stored rounds are not consecutive: {rounds}"
+            if window is not None and len(rounds) > window:
+                return f"ring holds {len(rounds)} rounds, capacity {window}"
             if rounds[0] != 0 and window is None:
                 return f"chain does not start at round 0: {rounds[:3]}"
             for a, b in zip(cur, cur[1:]):
@@ -91,6 +111,8 @@ def oracle_seq(seq, outs, window=None):
                 for c in cur:
                     if c[0] in old and old[c[0]] != c:
                         return f"round {c[0]} was rewritten: {old[c[0]]} -> {c}"
+                if window is not None and rounds[0] < store[0][0]:
+                    return f"the ring's window moved backwards: {store[0][0]} -> {rounds[0]}"
                 if rounds[-1] < store[-1][0]:
                     return "head went backwards"
             store = cur
@@ -104,7 +126,7 @@ def explore(ctx, res):
     total, validated, nontriv, dist, samples = 0, 0, set(), {}, []
     h = os.path.join(core.BUILD, "verifh")
     for backend in BACKENDS:
-        seqs = [gen_sequence(rng.fork(f"{backend}{i}"), i % 2 == 0) for i in range(n)]
+        seqs = [gen_sequence(rng.fork(f"{backend}{i}"), i % 2 == 0, backend.startswith("mem")) for i in range(n)]
         lines = [l for s in seqs for l in s]
         if ctx["model_ok"]:
             impl, model = core.run_both("chain", [backend], lines)
@@ -116,11 +138,11 @@ def explore(ctx, res):
         for s in seqs:
             outs = impl[i:i + len(s)]
             for o in outs:
-                k = o if o in ("ok", "already", "dup-diff-prev", "dup-diff-sig", "bad-round", "bad-prev") else "read"
+                k = o if o in ("ok", "already", "dup-diff-prev", "dup-diff-sig", "bad-round", "bad-prev", "err-write") else "read"
                 dist[k] = dist.get(k, 0) + 1
             if outs.count("ok") > 2:
                 nontriv.add((backend, tuple(s)))
-            why = oracle_seq(s, outs)
+            why = oracle_seq(s, outs, window=(int(backend[3:]) if backend.startswith("mem") and len(backend) > 3 else (2000 if backend == "mem" else None)))
             if why:
                 res.add_violation({"engine": "chain", "backend": backend, "kind": "impl-violates", "ops": s, "observed": outs, "oracle": why})
                 break
